@@ -169,6 +169,25 @@ def check_pdf(chk, rep, repo):
         early = [e for e in pdf_stores if e.seq < adds[0].seq and e.target != pi]
         if len(alloc_ev) == 1 and not alloc_ev[0].loops and not early:
             zero = alloc_ev
+    if not adds and not divs:
+        # local-accumulator form: acc = 0.0; for r < k: acc += term; pdf[i] = acc / n
+        import dataclasses
+        plain = [e for e in pdf_stores if e.target == pi and not e.aug and e.value[0] == "bin" and e.value[1] == "/"
+                 and e.value[2][0] == "phi" and e.loops == (per.lid,)]
+        if len(plain) == 1:
+            ph = plain[0].value[2]
+            inner_l = w.loops.get(ph[1])
+            if inner_l is not None and ph[2] in inner_l.carried and inner_l.loops == (per.lid,):
+                init, end = inner_l.carried[ph[2]]
+                binds = [e for e in w.events if e.kind == "bind" and e.name == ph[2] and e.aug == "+" and inner_l.lid in e.loops]
+                inits = [e for e in w.events if e.kind == "bind" and e.name == ph[2] and not e.aug and e.loops == (per.lid,)
+                         and e.value in (("const", 0), ("const", 0.0)) and e.seq < inner_l.first_seq]
+                if init in (("const", 0), ("const", 0.0)) and len(binds) == 1 and len(inits) == 1 \
+                        and end == w.binop("+", ph, binds[0].target):
+                    zero = inits
+                    adds = [dataclasses.replace(binds[0], kind="store", target=pi, value=binds[0].target)]
+                    divs = [dataclasses.replace(plain[0], value=plain[0].value[3], aug="/")]
+                    pdf_stores = [e for e in pdf_stores if e is not plain[0]] + divs
     okacc = False
     detail = "expected pdf[i] = 0; for r < k: pdf[i] += exp(-w(i, adj_r)/constant); pdf[i] /= k + 1"
     kparam = ("param", fn.params[1])
@@ -206,6 +225,9 @@ def check_pdf(chk, rep, repo):
                 okdiv = init == ("const", 1) and lin_eq(lin(end), {dv: 1, 1: 1})
             elif lin_eq(_sub(lin(dv), lin(kparam)), {1: 1}):
                 okdiv = True
+            elif dv[0] == "bin" and dv[1] == "+" and ("const", 1) in dv[2:] and any(
+                    t[0] == "max" and set(t[1]) == {("const", 0), kparam} for t in dv[2:]):
+                okdiv = True  # 1 + max(0, k): the value of the counter for every k (the loop runs max(0, k) times)
             okdiv = okdiv and d.loops == (per.lid,) and not d.guards and d.seq > a.seq
             if not okdiv:
                 detail = "the pdf must be divided by k + 1 (counter starting at 1, incremented once per neighbour)"
